@@ -257,6 +257,14 @@ func (c *PolyCtx) accessPath(addr ssa.Value) (string, bool) {
 			continue
 		case *ssa.UnOp:
 			if x.Op == token.MUL {
+				// a variable that lives in a cell only because a closure reads it (set once at
+				// entry, never written again, here or in the closures): the value itself
+				if a, isCell := x.X.(*ssa.Alloc); isCell {
+					if val, ok := cellValue(a); ok {
+						v = val
+						continue
+					}
+				}
 				// pointer loaded from somewhere: treat the loaded pointer as a root symbol
 				if p, ok := c.accessPath(x.X); ok {
 					return "(·" + p + ")" + joinFields(fields), true
@@ -1016,4 +1024,76 @@ func minMaxKind(fn *ssa.Function) string {
 		}
 	}
 	return ""
+}
+
+// cellValue: the Alloc is the cell of a variable that is assigned exactly once, before every
+// read, and is otherwise only read (also by the closures that capture it): returns that value.
+func cellValue(a *ssa.Alloc) (ssa.Value, bool) {
+	var st *ssa.Store
+	var readOnly func(v ssa.Value, depth int) bool
+	readOnly = func(v ssa.Value, depth int) bool {
+		if depth > 3 {
+			return false
+		}
+		for _, ref := range *v.Referrers() {
+			switch x := ref.(type) {
+			case *ssa.UnOp:
+				if x.Op != token.MUL {
+					return false
+				}
+			case *ssa.DebugRef:
+			case *ssa.Store:
+				if x.Addr != v || v != ssa.Value(a) || st != nil {
+					return false
+				}
+				st = x
+			case *ssa.MakeClosure:
+				fn, ok := x.Fn.(*ssa.Function)
+				if !ok {
+					return false
+				}
+				for i, b := range x.Bindings {
+					if b == v {
+						if i >= len(fn.FreeVars) || !readOnly(fn.FreeVars[i], depth+1) {
+							return false
+						}
+					}
+				}
+			default:
+				return false
+			}
+		}
+		return true
+	}
+	if !readOnly(a, 0) || st == nil {
+		return nil, false
+	}
+	// the single store comes first: in the entry block, before any other use of the cell
+	if st.Block() != a.Parent().Blocks[0] {
+		return nil, false
+	}
+	for _, ref := range *a.Referrers() {
+		if in, ok := ref.(ssa.Instruction); ok && in != ssa.Instruction(st) {
+			if _, isDbg := in.(*ssa.DebugRef); isDbg {
+				continue
+			}
+			if !InstrDominates(st, in) {
+				return nil, false
+			}
+		}
+	}
+	return st.Val, true
+}
+
+// resolveCell: a load from the cell of a variable that is set once and only read afterwards
+// (a parameter captured by a closure) is that value.
+func resolveCell(v ssa.Value) ssa.Value {
+	if u, ok := v.(*ssa.UnOp); ok && u.Op == token.MUL {
+		if a, isA := u.X.(*ssa.Alloc); isA {
+			if val, ok := cellValue(a); ok {
+				return val
+			}
+		}
+	}
+	return v
 }
